@@ -25,6 +25,14 @@ Families
   gbc  <P|E> <trans> COLL                the whole pipeline judged in Python: text -> Bio.SeqIO (independent reader) ->
                                          clauses (a); `parse_genbank` x 3 modes -> clauses (b), (c).
                                          `ok clean` or `ok viol <clause>...`
+
+Collections built on a SEQUENCE CHUNK (`seq_chunk_to_parent(chromosome[ws:we] (reverse-complemented on a minus
+chunk), name, ws, we, strand)`): WIN := <ws> <we> <+|->; the COLL of the line carries the CHROMOSOME sequence and
+chromosome coordinates, the export is expected in chunk-relative coordinates with the chunk's sequence
+  gbwk  <P|E> <force> <trans> WIN COLL   as gbw           -> `ok <n> REC*` / `err EmptyLocationException`
+  gbrtk <P|E> <S|L|H> WIN COLL           as gbrt          -> `ok <n> PGENE*` (chunk-relative gene models)
+  gbck  <P|E> <trans> WIN COLL           as gbc, against the chunk view computed here position by position
+                                         `ok clean` / `ok refused` (EmptyLocationException) / `ok viol ...`
 """
 from harness import shims
 
@@ -42,7 +50,8 @@ from inscripta.biocantor.gene.codon import TranslationTable  # noqa: E402
 from inscripta.biocantor.io.genbank.writer import collection_to_genbank, gene_to_feature  # noqa: E402
 from inscripta.biocantor.io.genbank.constants import GenbankFlavor, GenBankParserType  # noqa: E402
 from inscripta.biocantor.io.genbank import parser as GBP  # noqa: E402
-from inscripta.biocantor.io.parser import seq_to_parent  # noqa: E402
+from inscripta.biocantor.io.parser import seq_to_parent, seq_chunk_to_parent  # noqa: E402
+from inscripta.biocantor.location.strand import Strand  # noqa: E402
 
 SYM = {"+": "PLUS", "-": "MINUS", ".": "UNSTRANDED"}
 RSYM = {v: k for k, v in SYM.items()}
@@ -159,10 +168,31 @@ def dec_coll(t):
     return seq, coll
 
 
-def build(coll, seq):
+COMP = {"A": "T", "C": "G", "G": "C", "T": "A", "N": "N"}
+
+
+def chunk_sequence(seq, win):
+    """the letters of the chunk: the window of the chromosome, reverse-complemented on a minus-strand chunk"""
+    ws, we, wst = win
+    sub = seq[ws:we]
+    return sub if wst == "+" else "".join(COMP[c] for c in reversed(sub.upper()))
+
+
+def build(coll, seq, win=None):
     from harness import gen_collections as G
-    parent = seq_to_parent(seq, seq_id=SEQNAME) if seq is not None else None
+    if win is not None:
+        ws, we, wst = win
+        parent = seq_chunk_to_parent(chunk_sequence(seq, win), SEQNAME, ws, we, Strand[SYM[wst]])
+    else:
+        parent = seq_to_parent(seq, seq_id=SEQNAME) if seq is not None else None
     return AnnotationCollection.from_dict(G.to_library_dict(coll), parent_or_seq_chunk_parent=parent)
+
+
+def dec_win(t):
+    ws, we, wst = t.int_(), t.int_(), t.next()
+    if wst not in "+-" or not (0 <= ws < we):
+        raise KeyError("window")
+    return ws, we, wst
 
 
 # ------------------------------------------------------------------------------------------------------
@@ -218,14 +248,15 @@ def parse_text(text, mode):
     return list(GBP.parse_genbank(io.StringIO(text), gbk_type=MODE[mode]))
 
 
-def _gbw(t):
+def _gbw(t, chunk=False):
     """the SeqFeatures `collection_to_genbank` hands to Bio.SeqIO.write (the call is intercepted: no text is produced),
     so that the flavour -> translation table choice and the loop over the collection are the library's own"""
     import inscripta.biocantor.io.genbank.writer as W
     import types
     flavor, force, trans = FLAVOR[t.next()], t.next() == "1", t.next() == "1"
+    win = dec_win(t) if chunk else None
     seq, coll = dec_coll(t)
-    ac = build(coll, seq)
+    ac = build(coll, seq, win)
     captured = []
     real = W.SeqIO
     W.SeqIO = types.SimpleNamespace(write=lambda recs, handle, format: captured.extend(recs))
@@ -288,10 +319,11 @@ def _gbm(t):
     return "ok same" if res[0] == res[1] == res[2] else "ok differ"
 
 
-def _gbrt(t):
+def _gbrt(t, chunk=False):
     flavor, mode = t.next(), t.next()
+    win = dec_win(t) if chunk else None
     seq, coll = dec_coll(t)
-    ac = build(coll, seq)
+    ac = build(coll, seq, win)
     text = write_text(ac, flavor, False)
     return pgenes(genes_of_records(parse_text(text, mode)))
 
@@ -314,6 +346,12 @@ def impl_gb_op(line):
                 return _gbm(t)
             if op == "gbc":
                 return run(t)
+            if op == "gbwk":
+                return _gbw(t, chunk=True)
+            if op == "gbrtk":
+                return _gbrt(t, chunk=True)
+            if op == "gbck":
+                return run(t, chunk=True)
         raise KeyError(op)
 
     return guarded(go)
@@ -419,6 +457,118 @@ def cds_class(tx):
     return f"[strand={RSYM[tx['strand']]},blocks={len(cds)},frame={start_frame_of(tx)},adjacent={int(adj)}]"
 
 
+# ------------------------------------------------------------------------------------------------------
+# the chunk view: what a collection built on the chunk [ws, we) (strand wst) is expected to export, computed
+# position by position, without the library
+
+def clip_rel(blocks, win):
+    """in-chunk parts of the blocks, in chunk-relative coordinates, ascending on the chunk"""
+    ws, we, wst = win
+    out = []
+    for s, e in blocks:
+        lo, hi = max(s, ws), min(e, we)
+        if lo < hi:
+            out.append((lo - ws, hi - ws) if wst == "+" else (we - hi, we - lo))
+    return sorted(out)
+
+
+def rel_strand(strand, win):
+    if win[2] == "+" or strand == "UNSTRANDED":
+        return strand
+    return {"PLUS": "MINUS", "MINUS": "PLUS"}[strand]
+
+
+def positions_5to3(blocks, strand):
+    pos = [p for s, e in blocks for p in range(s, e)]
+    return pos if strand == "PLUS" else pos[::-1]
+
+
+def source_one_frame(tx):
+    cds = list(zip(tx["cds_starts"], tx["cds_ends"]))
+    sf = start_frame_of(tx)
+    five = cds[0] if tx["strand"] == "PLUS" else cds[-1]
+    return tx["cds_frames"] == frames_from_start(cds, tx["strand"], sf) and (len(cds) == 1 or sf <= five[1] - five[0])
+
+
+def chunk_start_frame(tx, win):
+    """bases to skip in the in-chunk CDS to reach the first codon of the FULL reading frame; None: no CDS base in chunk"""
+    ws, we, _ = win
+    pos = positions_5to3(list(zip(tx["cds_starts"], tx["cds_ends"])), tx["strand"])
+    inside = [i for i, p in enumerate(pos) if ws <= p < we]
+    if not inside:
+        return None
+    i, f0 = inside[0], start_frame_of(tx)
+    return f0 - i if i < f0 else (-(i - f0)) % 3
+
+
+def chunk_view(coll, win):
+    """(view, refusable): the collection in chunk-relative coordinates (+ `_span` of genes / feature collections,
+    `_src` of transcripts); refusable = some gene / transcript / written CDS / feature (collection) has no base in
+    the chunk (the writer documents EmptyLocationException for a location without blocks)"""
+    import copy
+    ws, we, _ = win
+    view = copy.deepcopy(coll)
+    refusable = False
+
+    def span_rel(lo, hi):
+        r = clip_rel([(lo, hi)], win)
+        return r[0] if r else None
+
+    for g in view["genes"]:
+        g["_span"] = span_rel(*gene_span(g))
+        refusable |= g["_span"] is None
+        for tx in g["transcripts"]:
+            src = copy.deepcopy(tx)
+            tx["_src"] = src
+            ex = clip_rel(list(zip(tx["exon_starts"], tx["exon_ends"])), win)
+            refusable |= not ex
+            tx["exon_starts"], tx["exon_ends"] = [s for s, _ in ex], [e for _, e in ex]
+            tx["strand"] = rel_strand(tx["strand"], win)
+            if tx["cds_starts"]:
+                cds = clip_rel(list(zip(src["cds_starts"], src["cds_ends"])), win)
+                if not cds:
+                    refusable |= tx_feature_type(src) == "mRNA"
+                    tx["cds_starts"] = tx["cds_ends"] = tx["cds_frames"] = None
+                    tx["_cds_gone"] = True
+                else:
+                    sf = chunk_start_frame(src, win)
+                    tx["cds_starts"], tx["cds_ends"] = [s for s, _ in cds], [e for _, e in cds]
+                    tx["cds_frames"] = frames_from_start(cds, tx["strand"], sf)
+                    five = cds[0] if tx["strand"] == "PLUS" else cds[-1]
+                    tx["_one_frame"] = source_one_frame(src) and (len(cds) == 1 or sf <= five[1] - five[0])
+    for fc in view["feature_collections"]:
+        lo = min(f["interval_starts"][0] for f in fc["feature_intervals"])
+        hi = max(f["interval_ends"][-1] for f in fc["feature_intervals"])
+        fc["_span"] = span_rel(lo, hi)
+        refusable |= fc["_span"] is None
+        for f in fc["feature_intervals"]:
+            bl = clip_rel(list(zip(f["interval_starts"], f["interval_ends"])), win)
+            refusable |= not bl
+            f["interval_starts"], f["interval_ends"] = [s for s, _ in bl], [e for _, e in bl]
+            f["strand"] = rel_strand(f["strand"], win)
+    return view, refusable
+
+
+def reference_translation(src, seq, win, table_id):
+    """translation of the codons of the FULL reading frame (walked on the chromosome, base by base) that lie
+    entirely inside the chunk"""
+    from Bio.Data import CodonTable
+    from Bio.Seq import Seq
+    ws, we, _ = win
+    pos = positions_5to3(list(zip(src["cds_starts"], src["cds_ends"])), src["strand"])[start_frame_of(src):]
+    cods = [pos[3 * i:3 * i + 3] for i in range(len(pos) // 3)]
+    cods = [c for c in cods if all(ws <= p < we for p in c)]
+    up = seq.upper()
+    nt = "".join(up[p] if src["strand"] == "PLUS" else COMP[up[p]] for c in cods for p in c)
+    if not nt:
+        return ""
+    prot = str(Seq(nt).translate(table=table_id))
+    starts = CodonTable.unambiguous_dna_by_id[11].start_codons if table_id == 11 else ["ATG"]
+    if nt[:3] in starts:
+        prot = "M" + prot[1:]
+    return prot
+
+
 def independent_translation(feature, seq, table_id):
     """Biopython's translation of the CDS as an independent reader sees it: extract by location (part order as
     read), skip codon_start-1 bases, whole codons only, NCBI table; the first codon is an initiator of that table
@@ -438,11 +588,24 @@ def independent_translation(feature, seq, table_id):
     return prot
 
 
-def check_pipeline(flavor, trans, seq, coll):
+def check_pipeline(flavor, trans, seq, coll, win=None):
+    """win = None: the collection lives on the whole chromosome.  Otherwise it is built on the chunk and every
+    expectation below is taken from `chunk_view` (chunk-relative blocks, strand on the chunk, start frame of the
+    in-chunk CDS, the chunk's letters)"""
     from Bio import SeqIO
+    from inscripta.biocantor.exc import EmptyLocationException
     viol = []
-    ac = build(coll, seq)
-    text = write_text(ac, flavor, trans)
+    chrom_seq = seq
+    ac = build(coll, seq, win)
+    if win is not None:
+        coll, refusable = chunk_view(coll, win)
+        seq = chunk_sequence(seq, win)
+        try:
+            text = write_text(ac, flavor, trans)
+        except EmptyLocationException:
+            return None if refusable else ["a.refused"]
+    else:
+        text = write_text(ac, flavor, trans)
     recs = list(SeqIO.parse(io.StringIO(text), "genbank"))
     if len(recs) != 1:
         return ["a.records"]
@@ -478,7 +641,7 @@ def check_pipeline(flavor, trans, seq, coll):
         strands = {t["strand"] for t in g["transcripts"]}
         st = RSYM[g["transcripts"][0]["strand"]]
         sym, tag = gene_symbol_written(g), gene_tag_written(g)
-        find("gene", st, [gene_span(g)], {"gene": sym, "locus_tag": tag, "gene_id": g["gene_id"] or None}, "gene")
+        find("gene", st, [g.get("_span") or gene_span(g)], {"gene": sym, "locus_tag": tag, "gene_id": g["gene_id"] or None}, "gene")
         expected_count += 1
         assert len(strands) == 1
         for tx in g["transcripts"]:
@@ -505,18 +668,27 @@ def check_pipeline(flavor, trans, seq, coll):
                     # one reading frame whose skipped bases lie inside the 5'-most block (Spec.Gb.Tx.oneFrame)
                     one_frame = (tx["cds_frames"] == frames_from_start(cds, tx["strand"], sf)
                                  and (len(cds) == 1 or sf <= five[1] - five[0]))
+                    if win is not None:
+                        one_frame = tx["_one_frame"]
                     if trans and one_frame:      # a programmed frameshift cannot be expressed by a GenBank location
                         # no /translation = nothing translatable (the writer skips CDSs without a whole codon)
                         ind = independent_translation(f, rec.seq, 11 if flavor == "P" else 1)
                         if f.qualifiers.get("translation", [""])[0] != ind:
                             viol.append("a.translation" + cds_class(tx))
+                        # on a chunk: = the codons of the full reading frame that lie inside the chunk
+                        if win is not None and ind != reference_translation(tx["_src"], chrom_seq, win,
+                                                                            11 if flavor == "P" else 1):
+                            viol.append("a.translation.reference" + cds_class(tx))
                     elif not trans and "translation" in f.qualifiers:
                         viol.append("a.translation.unrequested")
     for fc in coll["feature_collections"]:
         strands = [f["strand"] for f in fc["feature_intervals"]]
         st = RSYM[max(strands, key=strands.count)]
-        lo = min(f["interval_starts"][0] for f in fc["feature_intervals"])
-        hi = max(f["interval_ends"][-1] for f in fc["feature_intervals"])
+        if "_span" in fc:
+            lo, hi = fc["_span"]
+        else:
+            lo = min(f["interval_starts"][0] for f in fc["feature_intervals"])
+            hi = max(f["interval_ends"][-1] for f in fc["feature_intervals"])
         name = fc["feature_collection_name"] or fc["feature_collection_id"] or None
         find("misc_feature", st, [(lo, hi)], {"feature_collection_id": fc["feature_collection_id"] or None,
                                              "feature_collection_name": fc["feature_collection_name"] or None,
@@ -578,8 +750,11 @@ def check_pipeline(flavor, trans, seq, coll):
     return sorted(set(viol))
 
 
-def run(t):
+def run(t, chunk=False):
     flavor, trans = t.next(), t.next() == "1"
+    win = dec_win(t) if chunk else None
     seq, coll = dec_coll(t)
-    viol = check_pipeline(flavor, trans, seq, coll)
+    viol = check_pipeline(flavor, trans, seq, coll, win)
+    if viol is None:
+        return "ok refused"
     return "ok clean" if not viol else "ok viol " + " ".join(viol)
